@@ -31,6 +31,9 @@ with cf.ThreadPoolExecutor(8) as ex:
                 seen.add(m.groups())
         last = [l for l in out.strip().split("\n") if l][-1] if out.strip() else ""
         print(p, "exit", rc, "|", last)
+        for l in out.split("\n"):
+            if l.startswith(("selftest", "SELFTEST-MISS")):
+                print("    ", l[:300])
         if rc != 0:
             bad += 1
             for l in out.split("\n"):
